@@ -15,6 +15,20 @@ from engine.defuse import value_sources
 from engine.specialize import Spec
 
 KINDS = ["str", "bool", "int", "float", "none", "list", "dict"]
+_MODEL = [None]
+
+
+def cval(fn, e):
+    """the constant an expression stands for: a literal, or a module / class level named constant (TYPE_ATTR = "type")"""
+    if isinstance(e, ast.Constant):
+        return e.value
+    if isinstance(e, (ast.Name, ast.Attribute)) and _MODEL[0] is not None:
+        try:
+            v = _MODEL[0].const_eval(fn.module, e, fn.cls)
+        except (ValueError, KeyError, AttributeError):
+            return None
+        return v if isinstance(v, (str, int, float, bool, type(None))) else None
+    return None
 KCLASS = {"str": "str", "bool": "bool", "int": "int", "float": "float", "list": "list", "dict": "dict"}
 SUBCLASS = {("bool", "int")}
 
@@ -73,10 +87,10 @@ def tag_writes(sp, te):
             continue
         if n.kind == "assign" and isinstance(n.ast, ast.Assign):
             for tg in n.ast.targets:
-                if isinstance(tg, ast.Subscript) and isinstance(tg.slice, ast.Constant) and tg.slice.value == "type":
+                if isinstance(tg, ast.Subscript) and cval(te, tg.slice) == "type":
                     out.append((n, n.ast.value))
         if n.kind == "call" and isinstance(n.ast.func, ast.Attribute) and n.ast.func.attr == "set" and len(n.ast.args) == 2 \
-                and isinstance(n.ast.args[0], ast.Constant) and n.ast.args[0].value == "type":
+                and cval(te, n.ast.args[0]) == "type":
             out.append((n, n.ast.args[1]))
         if n.kind == "call" and n.ast.keywords and ast.unparse(n.ast.func).endswith("Element"):
             for k in n.ast.keywords:
@@ -90,6 +104,8 @@ def const_values(sp, expr, node):
     for k, p in sp.sources(expr, node):
         if k == "expr" and isinstance(p, ast.Constant):
             vals.add(p.value)
+        elif k == "expr" and isinstance(p, (ast.Name, ast.Attribute)) and isinstance(cval(sp.fn, p), str):
+            vals.add(cval(sp.fn, p))
         else:
             vals.add(("?", ast.unparse(p) if isinstance(p, ast.AST) else str(p)))
     return vals
@@ -118,6 +134,8 @@ class Elements:
         for k, p in self.sp.sources(expr, node):
             if k == "expr" and isinstance(p, ast.Constant):
                 out.add(("const", p.value))
+            elif k == "expr" and isinstance(p, (ast.Name, ast.Attribute)) and isinstance(cval(self.fn, p), str):
+                out.add(("const", cval(self.fn, p)))
             elif k == "param" and p == self.vparam:
                 out.add(("value",))
             elif k == "iter":
@@ -169,8 +187,15 @@ def classify_value(sp, fe, expr, node, text_ok):
             continue
         if isinstance(p, ast.Constant):
             kinds.add({bool: "bool", type(None): "none", str: "str", int: "int", float: "float"}.get(type(p.value), "?const"))
+        elif isinstance(p, (ast.Compare,)) or (isinstance(p, ast.UnaryOp) and isinstance(p.op, ast.Not)) or (
+                isinstance(p, ast.BoolOp) and all(isinstance(v, (ast.Compare, ast.UnaryOp)) for v in p.values)):
+            kinds.add("bool")
         elif isinstance(p, ast.Call) and isinstance(p.func, ast.Name) and p.func.id in ("int", "float", "bool", "str", "list", "dict"):
             kinds.add(p.func.id)
+        elif isinstance(p, ast.Call) and isinstance(p.func, ast.Name) and all(
+                k2 == "expr" and isinstance(q, ast.Name) and q.id in ("int", "float", "bool", "str") for k2, q in sp.sources(p.func, sp.where.get(id(p)))):
+            for k2, q in sp.sources(p.func, sp.where.get(id(p))):
+                kinds.add(q.id)     # convert = int if ... else float; convert(text)
         elif isinstance(p, (ast.List, ast.ListComp)):
             kinds.add("list")
         elif isinstance(p, (ast.Dict, ast.DictComp)):
@@ -193,7 +218,7 @@ def reader_decider(fe, tparam, tag):
             if k == "param" and p == tparam:
                 continue
             if k == "expr" and isinstance(p, (ast.Call, ast.Subscript)) and any(
-                    isinstance(x, ast.Constant) and x.value == "type" for x in ast.walk(p)):
+                    isinstance(x, (ast.Constant, ast.Name)) and cval(fe, x) == "type" for x in ast.walk(p)):
                 continue
             return False
         return True
@@ -201,13 +226,14 @@ def reader_decider(fe, tparam, tag):
     def decide(e, node):
         if isinstance(e, ast.Compare) and len(e.ops) == 1 and is_tagvar(e.left, node):
             r, op = e.comparators[0], e.ops[0]
-            if isinstance(r, ast.Constant) and isinstance(r.value, str):
+            rv = cval(fe, r)
+            if isinstance(rv, str):
                 if isinstance(op, ast.Eq):
-                    return r.value == tag
+                    return rv == tag
                 if isinstance(op, ast.NotEq):
-                    return r.value != tag
-            if isinstance(r, (ast.Tuple, ast.List, ast.Set)) and all(isinstance(x, ast.Constant) for x in r.elts):
-                hit = tag in [x.value for x in r.elts]
+                    return rv != tag
+            if isinstance(r, (ast.Tuple, ast.List, ast.Set)) and all(isinstance(cval(fe, x), str) for x in r.elts):
+                hit = tag in [cval(fe, x) for x in r.elts]
                 if isinstance(op, ast.In):
                     return hit
                 if isinstance(op, ast.NotIn):
@@ -222,6 +248,7 @@ def reader_decider(fe, tparam, tag):
 
 
 def check_xml_tables(ctx, an, model):
+    _MODEL[0] = model
     xml = model.cls("XmlConfigFormat")
     te, fe = model.method("XmlConfigFormat", "_to_element"), model.method("XmlConfigFormat", "_from_element")
     ctx.need(len(te.positional_params) >= 3 and len(fe.positional_params) >= 2, "XML _to_element/_from_element signature changed")
